@@ -206,7 +206,7 @@ def jobs(tier, seed):
             if cls == 'value' and L > 8:
                 tp = (seed * 5 + L * 3) % L
                 fixed = {i: NOTAB for i in range(L) if i != tp}
-            params = {'variants': [variant], 'fn': fn, 'cls': cls, 'L': L, 'tag': tag, 'fixed': fixed, 'prop': 'C12', 'xcheck_every': 12}
+            params = {'variants': [variant], 'fn': fn, 'cls': cls, 'L': L, 'tag': tag, 'fixed': fixed, 'prop': 'C12', 'xcheck_every': 25}
             J.append(Job(f'{tag}-{cls}-L{L}', 'mirse.props.c12.leaf_scan', params, T(tier, 60, 600),
                          f'{fn} ({variant}), every buffer of {L} bytes' + (' (HTAB only at one position)' if fixed else ''), family=f'{tag}-{cls}', groups=['ref'],
                          mandatory=(L <= 16)))
